@@ -22,7 +22,7 @@ class C16(Prop):
     needs = ('cells', 'frags', 'svg')
     partial = 'partial: the innermost-shape clause of the tag rule is proved as "children are offered the tag before their parent"; that enclosing shapes precede enclosed ones in the emitted order (laminar bounds) is covered by correspondence and oracle'
     rule = 'legend items: a drawing without # followed by a legend (header/blank/eol variants, 0-6 entries, identifiers x declarations over all scalars except braces incl. line ends, quotes, markup); tag items: tags in boxes, rounded boxes, circles, nested boxes, beside text, outside shapes; non-trivial when the legend has an entry or the drawing has a tag'
-    level_text = ('Theorems C16_legend_entries_read_back (parse o print = id for every legend in the documented form, LF and CRLF, blanks after the brace, any number of entries), C16_legend_is_not_drawn (the cell buffer is that of the text before the header), C16_rules_in_order, '
+    level_text = ('Theorems C16_legend_entries_read_back (parse o print = id for every legend in the documented form, LF and CRLF, blanks after the brace, any number of entries), C16_legend_is_not_drawn (the cell buffer is that of the text before the header, LF or CRLF), C16_rules_in_order, '
                   'C16_tag_outside_everything_stays_text (iff no node fits it), C16_taken_tag_becomes_classes (not rendered, names added), C16_other_text_unaffected, C16_children_first; by induction over entries and over the tree.')
     level_note = 'partial (see DESIGN.md C16): innermost-shape clause beyond children-first relies on correspondence plus oracle'
     def legend_item(self, rng, gen='legend'):
